@@ -10,6 +10,8 @@ pub mod c10;
 pub mod c11;
 pub mod c12;
 pub mod c16;
+pub mod c17;
+pub mod c18;
 
 use crate::Ctx;
 
@@ -27,6 +29,8 @@ pub fn run(ctx: &Ctx) -> i32 {
         "C11" => c11::run(ctx),
         "C12" => c12::run(ctx),
         "C16" => c16::run(ctx),
+        "C17" => c17::run(ctx),
+        "C18" => c18::run(ctx),
         other => {
             eprintln!("MACHINERY-ERROR unknown property {}", other);
             2
@@ -48,6 +52,8 @@ pub fn replay(id: &str, payload: &serde_json::Value) -> bool {
         "C11" => c11::replay(payload),
         "C12" => c12::replay(payload),
         "C16" => c16::replay(payload),
+        "C17" => c17::replay(payload),
+        "C18" => c18::replay(payload),
         other => {
             eprintln!("MACHINERY-ERROR no replay for {}", other);
             std::process::exit(2)
